@@ -205,6 +205,11 @@ def r16_2(chk, sdf):
             elif parser_name in ("int", "bool"):
                 chk.ob("R16.2", SDF, q, f"'{pname}' is written as an integer", t == "d", node=fn,
                        fingerprint=f"fmt:{q}:{pname}", found=piece.spec.text)
+                # a ' ' or '+' sign flag reserves a column: the field then holds only width-1 digits and a value with `width` digits
+                # (100 atoms in a 3-column counts field) pushes every later field one column to the right
+                chk.ob("R16.2", SDF, q, f"'{pname}' can use all {w} columns of its field for digits (no sign flag on a non-negative count/code)",
+                       piece.spec.sign not in (" ", "+"), node=fn, fingerprint=f"signflag:{q}:{pname}", expected=f"{{{pname}:{w}d}}",
+                       found=f"{{{pname}:{piece.spec.text}}}")
         # literal pieces may only cover reader fields without a parser (or pad before the trailing version field)
         for piece, start, w in cmap:
             if piece.kind != "lit":
@@ -250,6 +255,15 @@ def r16_2(chk, sdf):
 
 # ------------------------------------------------------------------------------------------------
 def r16_3(chk, sdf, mol):
+    # a chunk of blank lines only (after the last $$$$) must be skipped before lines[3] is read
+    pc = sdf.ev("parse_sdf_contents")
+    use = [e for e in pc.events if e.kind == "call" and call_name(e.value.as_atom() or ()) == "parse_counts_line"]
+    chk.need(use, "parse_sdf_contents: parse_counts_line call not found")
+    gk = [c.key() for c, pol in use[0].guards if not pol]
+    skip_blank = any(".strip()" in k and k.startswith("(not ") for k in gk) or any("(lt len(" in k or "(le len(" in k for k in gk)
+    chk.ob("R16.3", SDF, "parse_sdf_contents", "a chunk that holds nothing but blank lines is skipped before its counts line is read "
+           "(testing len(lines) == 0 lets a trailing blank line through)", skip_blank, node=use[0].node, fingerprint="skip-blank-chunk",
+           expected="if not compound.strip(): continue", found=gk[:3])
     q = "to_sdf_string"
     ev = sdf.ev(q)
     chk.saw(SDF, q)
